@@ -79,6 +79,7 @@ def gen(seed, tier, which):
                         'payload': list(payload), 'wellformed': well})
             # what the caller offers for the response (its own grpc-accept-encoding header, or none) is the gRPC service's business: the
             # bridge passes it on as it is
+            out[-1]['honest_eos'] = k % 3 == 1
             g = ('none', 'identity', 'gzip', 'zstd,identity', 'gzip,deflate')[k % 5]
             out[-1]['gae'] = g
             out[-1]['gae_bytes'] = list(g.encode())
@@ -100,6 +101,7 @@ def gen(seed, tier, which):
             out.append({'kind': 'srv_req', 'class': 'srv_req_segments', 'method': 'POST', 'version': 'HTTP/1.1', 'ctype': rnd.choice(TEXT), 'accept': 'none', 'text': True,
                         'chunks_req': cut(rnd, wire, mode), 'chunks_resp': [], 'trailers': [{'n': 'grpc-status', 'nb': list(b'grpc-status'), 'v': [48]}], 'inner_status': 200,
                         'payload': list(payload), 'wellformed': True})
+            out[-1]['honest_eos'] = len(out) % 2 == 0      # half of the segmented bodies report their end as soon as the last chunk is out
         fb = frame(0, b'hello')
         for m in ['GET', 'POST', 'OPTIONS', 'PUT']:
             for v in ['HTTP/1.0', 'HTTP/1.1', 'HTTP/2.0', 'HTTP/3.0']:
